@@ -126,12 +126,12 @@ def draw_opts(sp, mode, label, ctor=None):
     if ctor is None:
         if mode == 'call':          # library defaults at construction, explicit values per call
             ck = {}
-        else:                       # 'ctor' and 'full'
+        else:                       # 'ctor', 'full', 'override': values chosen at construction
             ck = dict(nest_on_conflict=bool(sp.choose(2, label + '.ctor-nest')),
                       trim_extensions=bool(sp.choose(2, label + '.ctor-trim')))
     else:
         ck = ctor
-    if mode == 'call':
+    if mode in ('call', 'override'):    # explicit values per call ('override': after chosen ctor values)
         kk = dict(nest_on_conflict=bool(sp.choose(2, label + '.nest')),
                   trim_extensions=bool(sp.choose(2, label + '.trim')))
     elif mode == 'ctor':
@@ -424,6 +424,12 @@ def h_populate(sp, bits=(), present=('res',), rule_dirs=('res',), exts=((), ('.t
                 sp.cover('rule-object-appended')
             if ci and (nest_i, trim_i) != calls[0][1:3]:
                 sp.cover('options-differ')
+            if ci:      # option left out now, overridden in the previous call: construction value must apply
+                for opt, default in (('nest_on_conflict', True), ('trim_extensions', False)):
+                    was = calls[ci - 1][0].get(opt)
+                    built = ck.get(opt, default)
+                    if kw.get(opt) is None and was is not None and was != built:
+                        sp.cover('fallback-after-override:%s:built-%s' % (opt, built))
             if any(KIND[PARENT[f]] == 'd' and split_ext(PARENT[f])[1] for _, f in inst):
                 sp.cover('dir-with-extension')
             if ci:
@@ -466,6 +472,8 @@ HARNESSES = {
 }
 
 ALL_DIRS = ('res', 'res2', MISSING, NOTDIR)
+FALLBACK_TAGS = ['fallback-after-override:%s:built-%s' % (o, b)
+                 for o in ('nest_on_conflict', 'trim_extensions') for b in (True, False)]
 EVERY_BIT = ['res'] + FULL_BITS + ['other', 'other/x']
 TIERS = {
     'quick': [
@@ -481,6 +489,9 @@ TIERS = {
         # how options, root, extra arguments and rules are handed over
         ('passing', dict(bits=('res/noext',), present=('res', 'res/a.txt', 'res/a.png'), exts=((),),
                          opts='full', extras=4, styles=True)),
+        # same populator: call 1 overrides the options, call 2 leaves them out / passes None
+        ('passing', dict(present=('res', 'res/a.txt', 'res/a.png', 'res/noext'), exts=((),), opts='override',
+                         second='full'), dict(required=FALLBACK_TAGS + ['second-population'])),
         # second population of the same map
         ('twice', dict(bits=('res/a.png', 'res/noext', 'res/sub/a.txt'),
                        present=('res', 'res/a.txt', 'res/sub'), second='call', mids=('res/z.txt',))),
@@ -497,7 +508,8 @@ TIERS = {
         ('passing', dict(bits=('res/noext',), present=('res', 'res/a.txt', 'res/a.png'), exts=((),),
                          opts='full', extras=4, styles=True)),
         ('passing', dict(bits=('res/noext',), present=('res', 'res/a.txt', 'res/a.png'),
-                         opts='full', styles=True, second='full', mids=('res/z.txt',))),
+                         opts='full', styles=True, second='full', mids=('res/z.txt',)),
+         dict(required=FALLBACK_TAGS + ['second-population', 'option-falls-back', 'root-per-call'])),
         ('twice', dict(bits=('res/a.txt', 'res/a.png', 'res/noext', 'res/sub', 'res/sub/a.txt', 'res/sub/deep',
                              'res/sub/deep/b.txt'),
                        present=('res',), rule_dirs=('res', 'res/sub'), n_rules=(1, 2), second='call',
@@ -532,7 +544,9 @@ BOUNDS = {
              'rules over {res,res2,missing,regular file} x 2 filters x nest x trim; names: a.tar.gz, directory '
              'd.txt/, rule on res/sub; passing: options at construction x per call (None/True/False, omitted or '
              'explicit None), root at construction or per call, 4 extra-argument shapes, add_rule or rule object; '
-             'twice: 8 trees, second population with fresh options, optionally after adding res/z.txt',
+             'twice: 8 trees, second population with fresh options, optionally after adding res/z.txt; same populator: '
+             'options at construction x explicit override in call 1 x every per-call form (omitted/None/True/False) '
+             'in call 2',
     'thorough': 'trees: all 513 trees over the 12 design bits (res/, res/a.txt, res/a.png, res/noext, res/sub/, '
                 'res/sub/a.txt, res/sub/deep/, res/sub/deep/b.txt, res2/, res2/c.txt, other/, other/x) x every '
                 'single rule over {res,res2,missing,regular file,res/sub} x 2 filters x nest x trim; rules: 171 '
@@ -559,6 +573,8 @@ ASSUMPTIONS = [
     'rejected one may or may not have been applied',
     'the factory receives a path that resolves (realpath) to the file; its textual form is free',
     'handle.parent / handle.key back-links are C11, not checked here',
+    'an option that is omitted or None in a call takes the value given at CONSTRUCTION (class docs), also when '
+    'an earlier call of the same populator overrode it',
 ]
 OUTSIDE = ['a file and a directory whose keys coincide after trimming (res/sub.txt next to res/sub/): a handle '
            'and a map compete for one name, the statement does not say who wins',
